@@ -206,6 +206,8 @@ def wire(R, RID='C04.wire'):
                 if isinstance(yo, ast.Yield):
                     ys = [yo]
         cnt = fold(R, ys[0].value.args[0], g.ctx) if ys and isinstance(ys[0].value, ast.Call) and ys[0].value.args else None
+        if sf == ('unpack', '!int'):
+            sf = ('unpack', {2: '!H', 8: '!Q'}.get(cnt, '!int'))
         gs = {(t, p) for (t, p, _) in guards_of(g, n)}
         lo, hi = interval_of(R, g.ctx, gs, lv, domain=(0, 127))
         forms[n] = (sf, cnt, lo, hi)
